@@ -18,6 +18,9 @@ def run(c, replay):
     c.run_layer(b, "TestVerif_C05_slab_histories", "slab-histories", deadline_s=c.pick(60, 600),
                 rule="histories of 2-3 matcher calls on one shared slab (standard and a small one that some calls overflow); the last call must equal "
                      "its fresh-slab result; states = victim cases, transitions = histories executed")
+    c.run_layer(b, "TestVerif_C05_slab_histories_long", "slab-histories-long", deadline_s=c.pick(60, 300),
+                rule="every ordered pair of 66 long-line cases (N around 2048, the slab capacity / M, 20k-70k; 3 shapes; patterns a, ab) on one slab of the standard size: the second result "
+                     "equals its result on a fresh standard slab (which algorithm runs must not depend on the slab's history)")
     c.run_layer(b, "TestVerif_C05_stale_rep_pos", "stale-rep-pos", deadline_s=c.pick(60, 600),
                 rule="all texts <= bound over 7 symbols x patterns <= 3 over 5 symbols x flags x 7 matchers: poisoned slabs, bytes vs runes, positions on/off "
                      "must not change Result/positions")
